@@ -100,6 +100,9 @@ func Guard(f func()) (p *Panic) {
 
 // Eval evaluates under Guard.
 func Eval(ctx context.Context, ast types.MalType, e types.EnvType) (res types.MalType, err error, p *Panic) {
+	if ctx == nil {
+		ctx = context.Background() // EVAL documents that it requires a context
+	}
 	p = Guard(func() { res, err = lisp.EVAL(ctx, ast, e) })
 	return
 }
